@@ -7,6 +7,7 @@ Require Import ZArith List Bool.
 Import ListNotations.
 Local Open Scope Z_scope.
 From EphVerif Require Import lib.Bytes gen.Constants_config.
+From EphVerif Require model.FetchModel.
 
 Definition ns : Z := 1000000000.
 
@@ -57,10 +58,34 @@ Definition announce (E now mn mx ttl_adv : Z) : derived :=
       mkDerived true (Some (now + t * ns)) None (Some (now + a * ns))
   end.
 
+(* handle_announce of an announce that assigns this node a shard: the announce path, and schedule_assigned_fetch puts a
+   pending fetch in the table (FetchModel) whose manifest expiry is the manifest's own E.  The announcer cannot be reached
+   (peer 1 is offline), so the first attempt fails at once and the fetch backs off; then the clock moves dt ms and the node
+   ticks.  Result: was the manifest taken, is a fetch pending after the announce, is one pending after the tick and how long
+   it still waits (ms, -1 none). *)
+Definition fetch_cfg (backoff : Z) : FetchModel.cfg := FetchModel.mkCfg backoff 60 15 0 0.
+Definition announce_fetch (E now mn mx backoff dt : Z) : bool * bool * bool * Z :=
+  match manifest_ttl E now mn mx with
+  | None => (false, false, false, -1)
+  | Some _ =>
+      let c := fetch_cfg backoff in
+      let s0 := FetchModel.mkSt [] [] [] [1] in
+      let sn1 := fst (FetchModel.step c (fun _ => E) (s0, now) (FetchModel.Announce 1 1)) in
+      let sn2 := fst (FetchModel.step c (fun _ => E) sn1 (FetchModel.Advance dt)) in
+      let sn3 := fst (FetchModel.step c (fun _ => E) sn2 FetchModel.Tick) in
+      let pending (sn : FetchModel.st * Z) := match FetchModel.ffind 1 (FetchModel.fetches (fst sn)) with Some _ => true | None => false end in
+      (true, pending sn1, pending sn3,
+       match FetchModel.ffind 1 (FetchModel.fetches (fst sn3)) with
+       | Some f => match FetchModel.f_next f with Some nx => (nx - snd sn3) / 1000000 | None => -1 end
+       | None => -1
+       end)
+  end.
+
 (* ---- wire ----
-   input: min max  then records: path(0 ingest, 1 receive, 2 announce)  remaining_s (the manifest expires that many whole
-   seconds after the current whole second; may be <= 0)  frac_ms (how far the clock is into that second)  ttl_adv
-   output per record: accepted, then for key shares / replica / the node's own announcement of the replica / the announcer's
+   input: min max  then records of five: path(0 ingest, 1 receive, 2 announce, 3 announce with an assigned shard)  remaining_s (the manifest expires that many whole
+   seconds after the current whole second; may be <= 0)  frac_ms (how far the clock is into that second)  ttl_adv (path 3:
+   dt_ms between the announce and the tick)  aux (path 3: the initial retry back-off in seconds)
+   output per record (path 3: accepted, key-share deadline, pending after the announce, pending after the tick, wait ms): accepted, then for key shares / replica / the node's own announcement of the replica / the announcer's
    contact: -1 or the deadline as milliseconds from now *)
 Definition o_dl (now : Z) (d : option Z) : Z := match d with None => -1 | Some x => (x - now) / 1000000 end.
 
@@ -71,10 +96,14 @@ Fixpoint run_wire (fuel : nat) (mn mx : Z) (l : list Z) : list Z :=
       match l with
       | [] => []
       | _ =>
-          let '(path, l) := w_next l in let '(rem, l) := w_next l in let '(frac, l) := w_next l in let '(adv, l) := w_next l in
+          let '(path, l) := w_next l in let '(rem, l) := w_next l in let '(frac, l) := w_next l in let '(adv, l) := w_next l in let '(aux, l) := w_next l in
           (* the clock stands frac ms after a whole second; the manifest expires rem whole seconds after that whole second *)
           let now := 1000 * ns + frac * 1000000 in
           let E := 1000 * ns + rem * ns in
+          if path =? 3 then
+            let '(acc, p0, p1, wait) := announce_fetch E now mn mx aux adv in
+            [o_bool acc; o_dl now (d_shards (announce E now mn mx 0)); o_bool p0; o_bool p1; wait] ++ run_wire f mn mx l
+          else
           let d := if path =? 0 then ingest E now mn mx else if path =? 1 then receive E now mn mx else announce E now mn mx adv in
           [o_bool (accepted d); o_dl now (d_shards d); o_dl now (d_replica d); o_dl now (d_replica d); o_dl now (d_contact d)] ++ run_wire f mn mx l
       end
